@@ -5,7 +5,7 @@ import DebInspector.Props.C02
 import DebInspector.Proofs.VersionOrder
 
 namespace Props.C02
-open Py Spec Spec.VerOrder PadLex Model.Version Proofs.VersionOrder
+open Proto Py Spec Spec.VerOrder PadLex Model.Version Proofs.VersionOrder
 
 /-- the order of two accepted strings, as an `Ordering` -/
 def ord (a b : Str) : Ordering := cmpVer dpkgRk (Policy.split (strip a)) (Policy.split (strip b))
@@ -199,6 +199,536 @@ theorem version_lt_strictWeak (vs : List Str) :
     have := ordPre.swap (vs.getD i []) (vs.getD j [])
     rw [h, h2] at this
     cases this
+
+
+/-! ## the whole observation -/
+
+theorem mapM_ok_of {α β} (f : α → Except PyExc β) (g : α → β) (l : List α) (h : ∀ a ∈ l, f a = .ok (g a)) :
+    l.mapM f = .ok (l.map g) := by
+  induction l with
+  | nil => rfl
+  | cons a as ih =>
+    rw [List.mapM_cons, h a (by simp), ih (fun x hx => h x (by simp [hx]))]
+    rfl
+
+theorem mapM_ok_facts {α β} (f : α → Except PyExc β) (l : List α) (ps : List β) (h : l.mapM f = .ok ps) :
+    ps.length = l.length ∧ ∀ i (hi : i < l.length) (hj : i < ps.length), f l[i] = .ok ps[i] := by
+  induction l generalizing ps with
+  | nil =>
+    rw [List.mapM_nil] at h
+    cases h
+    exact ⟨rfl, fun i hi => absurd hi (by simp)⟩
+  | cons a as ih =>
+    rw [List.mapM_cons] at h
+    cases hfa : f a with
+    | error e => rw [hfa] at h; cases h
+    | ok b =>
+      rw [hfa] at h
+      cases hm : as.mapM f with
+      | error e => rw [hm] at h; cases h
+      | ok bs =>
+        rw [hm] at h
+        have hps : ps = b :: bs := by cases h; rfl
+        subst hps
+        obtain ⟨hl, hix⟩ := ih bs hm
+        refine ⟨by simp [hl], ?_⟩
+        intro i hi hj
+        cases i with
+        | zero => simpa using hfa
+        | succ k => simpa using hix k (by simpa using hi) (by simpa using hj)
+
+theorem mapM_error_or {α β} (f : α → Except PyExc β) (l : List α) :
+    (∃ e, l.mapM f = .error e) ∨ (∃ ps, l.mapM f = .ok ps) := by
+  cases h : l.mapM f with
+  | error e => exact Or.inl ⟨e, rfl⟩
+  | ok ps => exact Or.inr ⟨ps, rfl⟩
+
+
+theorem getD_of_lt {α} (l : List α) (i : Nat) (d : α) (h : i < l.length) : l.getD i d = l[i] := by
+  simp [List.getD_eq_getElem?_getD, List.getElem?_eq_getElem h]
+
+theorem allIdx_iff (n : Nat) (p : Nat → Bool) : allIdx n p = true ↔ ∀ i, i < n → p i = true := by
+  simp [allIdx, List.all_eq_true, List.mem_range]
+
+def tbl {α} (n : Nat) (g : Nat → Nat → α) : List (List α) :=
+  (List.range n).map fun i => (List.range n).map fun j => g i j
+
+theorem tbl_get {α} (n : Nat) (g : Nat → Nat → α) (d : α) (i j : Nat) (hi : i < n) (hj : j < n) :
+    ((tbl n g).getD i []).getD j d = g i j := by
+  simp [tbl, List.getD_eq_getElem?_getD, List.getElem?_map, List.getElem?_range, hi, hj]
+
+theorem tbl_shape {α} (n : Nat) (g : Nat → Nat → α) :
+    ((tbl n g).length == n && (tbl n g).all (fun r => r.length == n)) = true := by
+  simp [tbl, List.all_eq_true]
+
+theorem map_eq_range_map {α β} (l : List α) (F : α → β) (d : α) :
+    l.map F = (List.range l.length).map fun i => F (l.getD i d) := by
+  apply List.ext_getElem
+  · simp
+  · intro i h1 h2
+    simp only [List.getElem_map, List.getElem_range, List.getD_eq_getElem?_getD]
+    have : i < l.length := by simpa using h1
+    simp [List.getElem?_eq_getElem this]
+
+/-- an abstract comparison table on the indices below `n` -/
+structure Table (n : Nat) (g : Nat → Nat → Int) : Prop where
+  vals : ∀ i j, i < n → j < n → g i j = -1 ∨ g i j = 0 ∨ g i j = 1
+  swap : ∀ i j, i < n → j < n → g j i = - g i j
+  refl : ∀ i, i < n → g i i = 0
+  trans : ∀ i j k, i < n → j < n → k < n → g i j ≤ 0 → g j k ≤ 0 →
+    g i k ≤ 0 ∧ ((g i j < 0 ∨ g j k < 0) → g i k < 0)
+
+def pairOf (r : Int) (eq : Bool) : PairObs :=
+  ⟨[decide (r < 0), decide (r ≤ 0), decide (r > 0), decide (r ≥ 0), eq, !eq], true,
+   [decide (r < 0), decide (r ≤ 0), decide (r ≤ 0), decide (r = 0), decide (r ≥ 0), decide (r ≥ 0), decide (r > 0)]⟩
+
+
+theorem insertIdx_congr (lt lt' : Nat → Nat → Bool) (n i : Nat) (l : List Nat) (hi : i < n) (hl : ∀ x ∈ l, x < n)
+    (h : ∀ a b, a < n → b < n → lt a b = lt' a b) : insertIdx lt i l = insertIdx lt' i l := by
+  induction l with
+  | nil => rfl
+  | cons j js ih =>
+    simp only [insertIdx, h i j hi (hl j (by simp)), ih (fun x hx => hl x (by simp [hx]))]
+
+theorem insertIdx_mem (lt : Nat → Nat → Bool) (i : Nat) (l : List Nat) : ∀ x ∈ insertIdx lt i l, x = i ∨ x ∈ l := by
+  intro x hx
+  have := (insertIdx_perm lt i l).mem_iff.mp hx
+  simpa using this
+
+theorem stableSort_congr (lt lt' : Nat → Nat → Bool) (n : Nat) (h : ∀ a b, a < n → b < n → lt a b = lt' a b) :
+    stableSort lt n = stableSort lt' n := by
+  unfold stableSort
+  have key : ∀ (xs acc : List Nat), (∀ x ∈ xs, x < n) → (∀ x ∈ acc, x < n) →
+      xs.foldl (fun acc i => insertIdx lt i acc) acc = xs.foldl (fun acc i => insertIdx lt' i acc) acc := by
+    intro xs
+    induction xs with
+    | nil => intro acc _ _; rfl
+    | cons x xs ih =>
+      intro acc hx hacc
+      simp only [List.foldl_cons]
+      rw [insertIdx_congr lt lt' n x acc (hx x (by simp)) hacc h]
+      apply ih
+      · intro y hy; exact hx y (by simp [hy])
+      · intro y hy
+        rcases insertIdx_mem lt' x acc y hy with e | e
+        · rw [e]; exact hx x (by simp)
+        · exact hacc y e
+  exact key _ [] (fun x hx => by simpa using hx) (by simp)
+
+theorem isPerm_of_perm (n : Nat) (p : List Nat) (h : p.Perm (List.range n)) : isPerm n p = true := by
+  simp only [isPerm, Bool.and_eq_true, beq_iff_eq, allIdx_iff]
+  refine ⟨by simpa using h.length_eq, ?_⟩
+  intro i hi
+  have : i ∈ p := h.mem_iff.mpr (by simpa using hi)
+  simpa using this
+
+/-- the clamped comparison: a strict weak order on all indices that agrees with the table below `n` -/
+def clampLt (n : Nat) (g : Nat → Nat → Int) (i j : Nat) : Bool := decide (g (min i (n - 1)) (min j (n - 1)) < 0)
+
+theorem clampLt_strictWeak (n : Nat) (g : Nat → Nat → Int) (hn : 0 < n) (T : Table n g) : StrictWeak (clampLt n g) := by
+  have hb : ∀ i, min i (n - 1) < n := fun i => by omega
+  constructor
+  · intro i j k h1 h2
+    simp only [clampLt, decide_eq_false_iff_not, Int.not_lt] at *
+    -- g j' i' ≥ 0, g k' j' ≥ 0 ⊢ g k' i' ≥ 0
+    have s1 := T.swap (min j (n-1)) (min i (n-1)) (hb j) (hb i)
+    have s2 := T.swap (min k (n-1)) (min j (n-1)) (hb k) (hb j)
+    have s3 := T.swap (min k (n-1)) (min i (n-1)) (hb k) (hb i)
+    have := (T.trans (min i (n-1)) (min j (n-1)) (min k (n-1)) (hb i) (hb j) (hb k) (by omega) (by omega)).1
+    omega
+  · intro i j h
+    simp only [clampLt, decide_eq_true_eq, decide_eq_false_iff_not, Int.not_lt] at *
+    have := T.swap (min i (n-1)) (min j (n-1)) (hb i) (hb j)
+    omega
+
+theorem sorted_adjacent (n : Nat) (g : Nat → Nat → Int) (T : Table n g) (lt : Nat → Nat → Bool)
+    (hlt : ∀ a b, a < n → b < n → lt a b = decide (g a b < 0)) :
+    ∀ k, k < n - 1 → g ((stableSort lt n).getD k 0) ((stableSort lt n).getD (k + 1) 0) ≤ 0 := by
+  intro k hk
+  have hn : 0 < n := by omega
+  have hc : stableSort lt n = stableSort (clampLt n g) n := by
+    apply stableSort_congr
+    intro a b ha hb
+    rw [hlt a b ha hb]
+    simp only [clampLt]
+    have e1 : min a (n - 1) = a := by omega
+    have e2 : min b (n - 1) = b := by omega
+    rw [e1, e2]
+  rw [hc]
+  have hperm := stableSort_perm (clampLt n g) n
+  have hlen : (stableSort (clampLt n g) n).length = n := by simpa using hperm.length_eq
+  have hsorted := stableSort_sorted (clampLt n g) (clampLt_strictWeak n g hn T) n
+  have hk1 : k < (stableSort (clampLt n g) n).length := by omega
+  have hk2 : k + 1 < (stableSort (clampLt n g) n).length := by omega
+  have hpw := (List.pairwise_iff_getElem.mp hsorted) k (k + 1) hk1 hk2 (by omega)
+  have hin : ∀ (i : Nat) (hi : i < (stableSort (clampLt n g) n).length), (stableSort (clampLt n g) n)[i] < n := by
+    intro i hi
+    have : (stableSort (clampLt n g) n)[i] ∈ List.range n := hperm.mem_iff.mp (List.getElem_mem hi)
+    simpa using this
+  have ha := hin k hk1
+  have hb := hin (k + 1) hk2
+  simp only [List.getD_eq_getElem?_getD, List.getElem?_eq_getElem hk1, List.getElem?_eq_getElem hk2, Option.getD_some]
+  simp only [clampLt, decide_eq_false_iff_not, Int.not_lt] at hpw
+  have e1 : min (stableSort (clampLt n g) n)[k] (n - 1) = (stableSort (clampLt n g) n)[k] := by omega
+  have e2 : min (stableSort (clampLt n g) n)[k + 1] (n - 1) = (stableSort (clampLt n g) n)[k + 1] := by omega
+  rw [e1, e2] at hpw
+  have := T.swap _ _ ha hb
+  omega
+
+/-- Python `max` / `min`: the running extremum of a total preorder is extremal -/
+theorem firstMax_extremal (n : Nat) (g : Nat → Nat → Int) (T : Table n g) (gt : Nat → Nat → Bool)
+    (hgt : ∀ a b, a < n → b < n → gt a b = decide (g a b > 0)) :
+    match firstMax gt n with
+    | none => n = 0
+    | some m => m < n ∧ ∀ j, j < n → g m j ≥ 0 := by
+  unfold firstMax
+  by_cases hn : n = 0
+  · simp [hn]
+  · simp only [hn, if_false]
+    have hpos : 0 < n := Nat.pos_of_ne_zero hn
+    -- invariant over the prefix 0..k
+    have key : ∀ k, k ≤ n →
+        (List.range k).foldl (fun m i => if gt i m then i else m) 0 < n ∧
+        ∀ j, j < k → g ((List.range k).foldl (fun m i => if gt i m then i else m) 0) j ≥ 0 := by
+      intro k
+      induction k with
+      | zero => intro _; exact ⟨by simpa using hpos, fun j hj => absurd hj (by omega)⟩
+      | succ k ih =>
+        intro hk
+        obtain ⟨hm, hall⟩ := ih (by omega)
+        rw [List.range_succ, List.foldl_append]
+        simp only [List.foldl_cons, List.foldl_nil]
+        generalize (List.range k).foldl (fun m i => if gt i m then i else m) 0 = m at hm hall
+        have hkn : k < n := by omega
+        rw [hgt k m hkn hm]
+        by_cases hg : g k m > 0
+        · simp only [hg, decide_true, if_true]
+          refine ⟨hkn, ?_⟩
+          intro j hj
+          by_cases hjk : j = k
+          · subst hjk; have := T.refl j hkn; omega
+          · have hjn : j < n := by omega
+            have hmj := hall j (by omega)
+            -- g j m ≤ 0, g m k < 0 ⇒ g j k ≤ 0
+            have s1 := T.swap m j hm hjn
+            have s2 := T.swap k m hkn hm
+            have s3 := T.swap k j hkn hjn
+            have := (T.trans j m k hjn hm hkn (by omega) (by omega)).1
+            omega
+        · simp only [hg, decide_false, Bool.false_eq_true, if_false]
+          refine ⟨hm, ?_⟩
+          intro j hj
+          by_cases hjk : j = k
+          · subst hjk
+            have := T.swap j m hkn hm
+            omega
+          · exact hall j (by omega)
+    exact key n (Nat.le_refl n)
+
+
+theorem Table.neg {n : Nat} {g : Nat → Nat → Int} (T : Table n g) : Table n (fun i j => - g i j) := by
+  constructor
+  · intro i j hi hj; have := T.vals i j hi hj; omega
+  · intro i j hi hj; have := T.swap i j hi hj; omega
+  · intro i hi; have := T.refl i hi; omega
+  · intro i j k hi hj hk h1 h2
+    -- -g i j ≤ 0, -g j k ≤ 0: g k j ≤ 0, g j i ≤ 0 ⇒ g k i ≤ 0
+    have s1 := T.swap i j hi hj
+    have s2 := T.swap j k hj hk
+    have s3 := T.swap i k hi hk
+    have := T.trans k j i hk hj hi (by omega) (by omega)
+    constructor
+    · omega
+    · intro h
+      have := this.2 (by omega)
+      omega
+
+/-- the observation the model builds from a comparison table -/
+def fullOf (n : Nat) (g : Nat → Nat → Int) (e : Nat → Nat → Bool) : Full :=
+  let matrix := tbl n g
+  let get (i j : Nat) : Int := (matrix.getD i []).getD j 0
+  let lt := fun i j => decide (get i j < 0)
+  let gt := fun i j => decide (get i j > 0)
+  { matrix := matrix, pairs := tbl n fun i j => pairOf (g i j) (e i j),
+    sortedObj := stableSort lt n, sortedKey := stableSort lt n,
+    maxIdx := firstMax gt n, minIdx := firstMax lt n }
+
+/-- **every clause of the property holds of the observation built from a total preorder table** -/
+theorem holdsFull_fullOf (n : Nat) (g : Nat → Nat → Int) (e : Nat → Nat → Bool) (T : Table n g)
+    (he : ∀ i j, i < n → j < n → e i j = true → g i j = 0) : holdsFull n (fullOf n g e) = true := by
+  have hget : ∀ i j, i < n → j < n → (((fullOf n g e).matrix.getD i []).getD j 0) = g i j :=
+    fun i j hi hj => tbl_get n g 0 i j hi hj
+  have hpr : ∀ i j, i < n → j < n → (((fullOf n g e).pairs.getD i []).getD j ⟨[], false, []⟩) = pairOf (g i j) (e i j) :=
+    fun i j hi hj => tbl_get n _ _ i j hi hj
+  have hlt : ∀ a b, a < n → b < n →
+      (fun i j => decide ((((fullOf n g e).matrix.getD i []).getD j 0) < 0)) a b = decide (g a b < 0) := by
+    intro a b ha hb; simp only [hget a b ha hb]
+  have hgt : ∀ a b, a < n → b < n →
+      (fun i j => decide ((((fullOf n g e).matrix.getD i []).getD j 0) > 0)) a b = decide (g a b > 0) := by
+    intro a b ha hb; simp only [hget a b ha hb]
+  have hsortPerm := stableSort_perm (fun i j => decide ((((fullOf n g e).matrix.getD i []).getD j 0) < 0)) n
+  have hsorted := sorted_adjacent n g T _ hlt
+  have hmax := firstMax_extremal n g T _ hgt
+  have hmin := firstMax_extremal n (fun i j => - g i j) T.neg
+    (fun i j => decide ((((fullOf n g e).matrix.getD i []).getD j 0) < 0)) (by
+      intro a b ha hb
+      simp only [hget a b ha hb]
+      by_cases h : g a b < 0
+      · simp [h]
+      · simp [h])
+  unfold holdsFull
+  simp only [Bool.and_eq_true]
+  have hshape1 := tbl_shape n g
+  have hshape2 := tbl_shape n fun i j => pairOf (g i j) (e i j)
+  simp only [Bool.and_eq_true] at hshape1 hshape2
+  refine ⟨⟨⟨⟨⟨⟨⟨⟨⟨⟨⟨⟨⟨hshape1.1, hshape1.2⟩, hshape2.1⟩, hshape2.2⟩, ?_⟩, ?_⟩, ?_⟩, ?_⟩, ?_⟩, ?_⟩, ?_⟩, ?_⟩, ?_⟩, ?_⟩
+  · -- values and antisymmetry
+    rw [allIdx_iff]; intro i hi; rw [allIdx_iff]; intro j hj
+    rw [hget i j hi hj, hget j i hj hi]
+    have v := T.vals i j hi hj
+    have s := T.swap i j hi hj
+    rcases v with v | v | v <;> simp [v, s]
+  · rw [allIdx_iff]; intro i hi
+    rw [hget i i hi hi, T.refl i hi]; rfl
+  · rw [allIdx_iff]; intro i hi; rw [allIdx_iff]; intro j hj; rw [allIdx_iff]; intro k hk
+    simp only [hget i j hi hj, hget j k hj hk, hget i k hi hk]
+    by_cases h1 : g i j ≤ 0
+    · by_cases h2 : g j k ≤ 0
+      · obtain ⟨t1, t2⟩ := T.trans i j k hi hj hk h1 h2
+        by_cases h3 : g i j < 0 ∨ g j k < 0
+        · have := t2 h3
+          simp [h1, h2, t1, this]
+        · have h3' : ¬ g i j < 0 ∧ ¬ g j k < 0 := by
+            constructor
+            · intro h; exact h3 (Or.inl h)
+            · intro h; exact h3 (Or.inr h)
+          simp [h1, h2, t1, h3'.1, h3'.2]
+      · simp [h2]
+    · simp [h1]
+  · rw [allIdx_iff]; intro i hi; rw [allIdx_iff]; intro j hj
+    simp only [hget i j hi hj, hpr i j hi hj]
+    simp only [pairOf, List.getD_eq_getElem?_getD, List.getElem?_cons_succ, List.getElem?_cons_zero, Option.getD_some,
+      beq_self_eq_true, Bool.true_and, Bool.and_true]
+    cases hee : e i j with
+    | false => simp
+    | true => simp [he i j hi hj hee]
+  · exact isPerm_of_perm n _ hsortPerm
+  · exact isPerm_of_perm n _ hsortPerm
+  · rw [allIdx_iff]; intro k hk
+    have := hsorted k hk
+    have hperm := hsortPerm
+    have hlen : (stableSort (fun i j => decide ((((fullOf n g e).matrix.getD i []).getD j 0) < 0)) n).length = n := by
+      simpa using hperm.length_eq
+    have hin : ∀ i, i < n → (stableSort (fun i j => decide ((((fullOf n g e).matrix.getD i []).getD j 0) < 0)) n).getD i 0 < n := by
+      intro i hi
+      have hi' : i < (stableSort (fun i j => decide ((((fullOf n g e).matrix.getD i []).getD j 0) < 0)) n).length := by omega
+      rw [getD_of_lt _ _ _ hi']
+      have := hperm.mem_iff.mp (List.getElem_mem hi')
+      simpa using this
+    show decide (((((fullOf n g e).matrix.getD ((fullOf n g e).sortedObj.getD k 0) []).getD ((fullOf n g e).sortedObj.getD (k + 1) 0) 0)) ≤ 0) = true
+    have e1 : (fullOf n g e).sortedObj = stableSort (fun i j => decide ((((fullOf n g e).matrix.getD i []).getD j 0) < 0)) n := rfl
+    rw [e1, hget _ _ (hin k (by omega)) (hin (k + 1) (by omega))]
+    simpa using this
+  · rw [allIdx_iff]; intro k hk
+    have := hsorted k hk
+    have hperm := hsortPerm
+    have hlen : (stableSort (fun i j => decide ((((fullOf n g e).matrix.getD i []).getD j 0) < 0)) n).length = n := by
+      simpa using hperm.length_eq
+    have hin : ∀ i, i < n → (stableSort (fun i j => decide ((((fullOf n g e).matrix.getD i []).getD j 0) < 0)) n).getD i 0 < n := by
+      intro i hi
+      have hi' : i < (stableSort (fun i j => decide ((((fullOf n g e).matrix.getD i []).getD j 0) < 0)) n).length := by omega
+      rw [getD_of_lt _ _ _ hi']
+      have := hperm.mem_iff.mp (List.getElem_mem hi')
+      simpa using this
+    show decide (((((fullOf n g e).matrix.getD ((fullOf n g e).sortedKey.getD k 0) []).getD ((fullOf n g e).sortedKey.getD (k + 1) 0) 0)) ≤ 0) = true
+    have e1 : (fullOf n g e).sortedKey = stableSort (fun i j => decide ((((fullOf n g e).matrix.getD i []).getD j 0) < 0)) n := rfl
+    rw [e1, hget _ _ (hin k (by omega)) (hin (k + 1) (by omega))]
+    simpa using this
+  · have e1 : (fullOf n g e).maxIdx = firstMax (fun i j => decide ((((fullOf n g e).matrix.getD i []).getD j 0) > 0)) n := rfl
+    rw [e1]
+    cases hm : firstMax (fun i j => decide ((((fullOf n g e).matrix.getD i []).getD j 0) > 0)) n with
+    | none => rw [hm] at hmax; simpa using hmax
+    | some m =>
+      rw [hm] at hmax
+      simp only [Bool.and_eq_true, decide_eq_true_eq, allIdx_iff]
+      refine ⟨hmax.1, ?_⟩
+      intro j hj
+      rw [hget m j hmax.1 hj]
+      simpa using hmax.2 j hj
+  · have e1 : (fullOf n g e).minIdx = firstMax (fun i j => decide ((((fullOf n g e).matrix.getD i []).getD j 0) < 0)) n := rfl
+    rw [e1]
+    cases hm : firstMax (fun i j => decide ((((fullOf n g e).matrix.getD i []).getD j 0) < 0)) n with
+    | none => rw [hm] at hmin; simpa using hmin
+    | some m =>
+      rw [hm] at hmin
+      simp only [Bool.and_eq_true, decide_eq_true_eq, allIdx_iff]
+      refine ⟨hmin.1, ?_⟩
+      intro j hj
+      rw [hget m j hmin.1 hj]
+      have := hmin.2 j hj
+      have h' : g m j ≤ 0 := by omega
+      simpa using h'
+
+
+/-- the order table of a list of strings -/
+def gOf (vs : List Str) (i j : Nat) : Int := ordInt (ord (vs.getD i []) (vs.getD j []))
+
+theorem gOf_table (vs : List Str) (n : Nat) : Table n (gOf vs) := by
+  have p := ordPre
+  constructor
+  · intro i j _ _
+    unfold gOf
+    cases ord (vs.getD i []) (vs.getD j []) <;> simp [ordInt]
+  · intro i j _ _
+    unfold gOf
+    rw [p.swap (vs.getD i []) (vs.getD j []), ordInt_swap]
+  · intro i _
+    unfold gOf
+    rw [p.refl]; rfl
+  · intro i j k _ _ _ h1 h2
+    unfold gOf at *
+    rw [ordInt_le] at h1 h2
+    refine ⟨(ordInt_le _).mpr (p.trans_le _ _ _ h1 h2), ?_⟩
+    intro hs
+    rw [ordInt_lt] at *
+    cases hab : ord (vs.getD i []) (vs.getD j []) with
+    | gt => exact absurd hab h1
+    | lt =>
+      cases hbc : ord (vs.getD j []) (vs.getD k []) with
+      | gt => exact absurd hbc h2
+      | lt => exact p.trans_lt _ _ _ hab hbc
+      | eq => rw [← p.eq_right _ _ _ hbc]; exact hab
+    | eq =>
+      cases hbc : ord (vs.getD j []) (vs.getD k []) with
+      | gt => exact absurd hbc h2
+      | lt => rw [p.eq_left _ _ _ hab]; exact hbc
+      | eq =>
+        rcases hs with h | h
+        · rw [hab] at h; cases h
+        · rw [ordInt_lt, hbc] at h; cases h
+
+theorem pairObs_ok (a b : Ver) : ∀ r ∈ [(-1 : Int), 0, 1], pairObs a b r = .ok (pairOf r (decide (a = b))) := by
+  intro r hr
+  simp only [List.mem_cons, List.not_mem_nil, or_false] at hr
+  rcases hr with rfl | rfl | rfl <;> rfl
+
+theorem zip_mapM {α β γ} (ps : List α) (F : α → β) (f : α × β → Except PyExc γ) :
+    (ps.zip (ps.map F)).mapM f = ps.mapM fun a => f (a, F a) := by
+  induction ps with
+  | nil => rfl
+  | cons a as ih => simp only [List.map_cons, List.zip_cons_cons, List.mapM_cons, ih]
+
+
+/-- the three-way result between two parsed versions, totalised -/
+def Gv (a b : Ver) : Int := match cmpV a b with | .ok r => r | .error _ => 0
+
+theorem cmpV_of_parsed (a b : Str) (va vb : Ver) (ha : fromString a = .ok va) (hb : fromString b = .ok vb) :
+    cmpV va vb = .ok (ordInt (ord a b)) := by
+  have := cmp_eq a b va vb ha hb
+  unfold compareVersions at this
+  rw [ha, hb] at this
+  exact this
+
+/-- **C02, the whole observation**: for every list of strings, every clause of the property holds of what the
+model observes — the matrix, the rich comparisons and the seven constraint operators on every ordered pair,
+`sorted` of the objects and by key, `max` and `min` -/
+theorem sound (vs : Input) : holdsOn vs (model vs) = true := by
+  cases hps : vs.mapM fromString with
+  | error e =>
+    have : model vs = .error e := by unfold model; rw [hps]; rfl
+    rw [this]; rfl
+  | ok ps =>
+    obtain ⟨hlen, hix⟩ := mapM_ok_facts fromString vs ps hps
+    -- every entry of the matrix
+    have hcmp : ∀ i j (hi : i < ps.length) (hj : j < ps.length), cmpV ps[i] ps[j] = .ok (gOf vs i j) := by
+      intro i j hi hj
+      have h1 := hix i (by omega) hi
+      have h2 := hix j (by omega) hj
+      have := cmpV_of_parsed vs[i] vs[j] ps[i] ps[j] h1 h2
+      rw [this]
+      unfold gOf
+      rw [getD_of_lt vs i [] (by omega), getD_of_lt vs j [] (by omega)]
+    have hmem : ∀ a ∈ ps, ∀ b ∈ ps, cmpV a b = .ok (Gv a b) := by
+      intro a ha b hb
+      obtain ⟨i, hi, rfl⟩ := List.getElem_of_mem ha
+      obtain ⟨j, hj, rfl⟩ := List.getElem_of_mem hb
+      unfold Gv
+      rw [hcmp i j hi hj]
+    have hGv : ∀ i j (hi : i < ps.length) (hj : j < ps.length), Gv ps[i] ps[j] = gOf vs i j := by
+      intro i j hi hj
+      unfold Gv; rw [hcmp i j hi hj]
+    have hmatrix : (ps.mapM fun a => ps.mapM fun b => cmpV a b) = .ok (ps.map fun a => ps.map fun b => Gv a b) := by
+      apply mapM_ok_of
+      intro a ha
+      exact mapM_ok_of _ _ _ (fun b hb => hmem a ha b hb)
+    have hrows : (ps.map fun a => ps.map fun b => Gv a b) = tbl ps.length (gOf vs) := by
+      unfold tbl
+      rw [map_eq_range_map ps _ ⟨0, [], []⟩]
+      apply List.map_congr_left
+      intro i hi
+      have hi' : i < ps.length := by simpa using hi
+      rw [map_eq_range_map ps _ ⟨0, [], []⟩]
+      apply List.map_congr_left
+      intro j hj
+      have hj' : j < ps.length := by simpa using hj
+      rw [getD_of_lt ps i _ hi', getD_of_lt ps j _ hj']
+      exact hGv i j hi' hj'
+    have hpairs : ((ps.zip (ps.map fun a => ps.map fun b => Gv a b)).mapM fun (x : Ver × List Int) =>
+          (ps.zip x.2).mapM fun (y : Ver × Int) => pairObs x.1 y.1 y.2) =
+        .ok (ps.map fun a => ps.map fun b => pairOf (Gv a b) (decide (a = b))) := by
+      rw [zip_mapM]
+      apply mapM_ok_of
+      intro a ha
+      simp only
+      rw [zip_mapM]
+      apply mapM_ok_of
+      intro b hb
+      apply pairObs_ok
+      obtain ⟨i, hi, rfl⟩ := List.getElem_of_mem ha
+      obtain ⟨j, hj, rfl⟩ := List.getElem_of_mem hb
+      rw [hGv i j hi hj]
+      have := (gOf_table vs ps.length).vals i j hi hj
+      simp only [List.mem_cons, List.not_mem_nil, or_false]
+      exact this
+    have hprows : (ps.map fun a => ps.map fun b => pairOf (Gv a b) (decide (a = b))) =
+        tbl ps.length fun i j => pairOf (gOf vs i j) (decide (ps.getD i ⟨0, [], []⟩ = ps.getD j ⟨0, [], []⟩)) := by
+      unfold tbl
+      rw [map_eq_range_map ps _ ⟨0, [], []⟩]
+      apply List.map_congr_left
+      intro i hi
+      have hi' : i < ps.length := by simpa using hi
+      rw [map_eq_range_map ps _ ⟨0, [], []⟩]
+      apply List.map_congr_left
+      intro j hj
+      have hj' : j < ps.length := by simpa using hj
+      rw [getD_of_lt ps i _ hi', getD_of_lt ps j _ hj', hGv i j hi' hj']
+      simp only [getD_of_lt ps i _ hi', getD_of_lt ps j _ hj']
+    have hmodel : model vs = .ok (fullOf ps.length (gOf vs) fun i j => decide (ps.getD i ⟨0, [], []⟩ = ps.getD j ⟨0, [], []⟩)) := by
+      unfold model
+      rw [hps]
+      simp only [bind, Except.bind]
+      rw [hmatrix]
+      simp only
+      rw [hpairs]
+      simp only [pure, Except.pure, hrows, hprows, hlen, fullOf]
+    rw [hmodel]
+    unfold holdsOn
+    simp only
+    rw [← hlen]
+    apply holdsFull_fullOf _ _ _ (gOf_table vs ps.length)
+    intro i j hi hj he
+    have heq : ps.getD i ⟨0, [], []⟩ = ps.getD j ⟨0, [], []⟩ := by simpa using he
+    rw [getD_of_lt ps i _ hi, getD_of_lt ps j _ hj] at heq
+    have h1 := hix i (by omega) hi
+    have h2 := hix j (by omega) hj
+    have := eq_imp_cmp_zero vs[i] vs[j] ps[i] ps[j] h1 h2 heq
+    rw [cmp_eq vs[i] vs[j] ps[i] ps[j] h1 h2] at this
+    unfold gOf
+    rw [getD_of_lt vs i [] (by omega), getD_of_lt vs j [] (by omega)]
+    have h0 : ordInt (ord vs[i] vs[j]) = 0 := by
+      injection this
+    exact h0
+
 
 /-- non-vacuity: order-equal but textually different versions, and the legacy operators -/
 example : model ["1.0".toList, "1.00".toList] =
